@@ -1,12 +1,15 @@
-"""C19 — last-business-day schedule. Theorems: Props/C19.v (date-only for every timestamp; the
-spec equivalence by a complete sweep of 1970-01-01 … 2199-12-31).
+"""C19 — last-business-day schedule. Theorems: Props/C19.v, all for EVERY timestamp in Z (the spec equivalence by
+a complete sweep of one 400-year period of the Gregorian calendar, lifted to Z by periodicity).
 Correspondence (exhaustive in both tiers): the model's calendar (day, month, weekday) and both
-schedules against the `time` crate / schedule/mod.rs on every day of the range at several times of
-day — this is also what ties the model's calendar to the crate's."""
+schedules against the `time` crate / schedule/mod.rs on every day of one full period (1970-01-01 …
+2369-12-31) at several times of day, plus blocks of days spread over the whole range the `time` crate accepts
+(years -9999 … 9999), negative timestamps at non-midnight times included — this is also what ties the model's
+calendar to the crate's."""
 from common import *
 
 IMPORTS = "From Alator Require Import Model.Schedule Check.SchedCheck.\nOpen Scope Z_scope."
-DAYS = 84006
+DAYS = 146097          # one full period of the Gregorian calendar
+PY_MIN, PY_MAX = -719162, 2932896      # 0001-01-01 … 9999-12-31: what Python's own calendar can speak about
 
 
 def spec_py(day):
@@ -31,7 +34,10 @@ def run(res, tier, seed, replay):
     scs = [dict(from_day=a, to_day=min(DAYS, a + block), times=times) for a in range(0, DAYS, block)]
     # a few blocks outside the range the theorem covers (before 1970, after 2200): the date-only
     # theorem is unbounded, the calendar model is compared there too
-    extra = [dict(from_day=a, to_day=a + 200, times=times) for a in (-30000, -800, 84006, 120000, 2900000)]
+    far = [-4371000, -3000000, -1500000, -719200, -700000, -400000, -150000, -30000, -1100, -800, -400, -200,
+           146097, 200000, 500000, 1000000, 2000000, 2900000, 2932600]
+    far += [rng_day for rng_day in __import__("random").Random(seed).sample(range(-4371000, 2932000), 12)]
+    extra = [dict(from_day=a, to_day=a + 200, times=times) for a in far]
     scs += extra
     trs = run_harness_sharded("sched", scs, wd)
     terms = [gt(gl([gz(t) for t in sc["times"]]), gz(sc["from_day"]), gl([gz(c) for c in tr["codes"]]))
@@ -42,7 +48,7 @@ def run(res, tier, seed, replay):
     nt = len(times)
     n_true = 0
     for sc, tr in zip(scs, trs):
-        if not (0 <= sc["from_day"] < DAYS):
+        if not (PY_MIN <= sc["from_day"] and sc["to_day"] + 40 < PY_MAX):
             continue
         for k, day in enumerate(range(sc["from_day"], sc["to_day"])):
             want = spec_py(day)
@@ -64,11 +70,15 @@ def run(res, tier, seed, replay):
     evals = sum(len(t["codes"]) for t in trs)
     res.coverage.update(
         evaluations=evals, distinct_nontrivial=n_true, exhaustive=True,
-        rule="every day 1970-01-01 … 2199-12-31 (84 006 days) x times of day %s, plus 5 blocks of 200 "
-             "days outside that range; compared: day-of-month, month, weekday, both schedules. "
-             "distinct_nontrivial = days on which the property demands `true` (last business days)" % times,
+        rule="every day 1970-01-01 … 2369-12-31 (146 097 days = one full Gregorian period) x times of day %s, plus "
+             "%d blocks of 200 days spread over years -9999 … 9999 (negative timestamps at non-midnight times "
+             "included); compared with the model: day-of-month, month, weekday, both schedules; the property is "
+             "also read directly with Python's calendar on every compared day of years 1 … 9999. "
+             "distinct_nontrivial = days on which the property demands `true` (last business days)" % (times, len(extra)),
         samples=[dict(day=10957, timestamp=10957 * 86400 + 32400, code=trs[18]["codes"][(10957 - 10800) * nt + 1])],
         traces_validated_against_impl=len(scs), correspondence_mismatches=len(failing))
-    res.assumptions += ["spec equivalence is bounded to 1970–2199 (stated in c19_spec); c19_date_only is unbounded",
-                        "time crate's calendar is not modelled beyond being compared exhaustively on that range"]
+    res.assumptions += ["all C19 theorems are unbounded in Z; timestamps outside the `time` crate's range (years beyond "
+                        "+-9999) make DateTime panic in the code — outside the property's 'supported range'",
+                        "time crate's calendar is not modelled beyond being compared exhaustively on one full period "
+                        "and on blocks across its range"]
     return ob
